@@ -486,6 +486,20 @@ def expand(case):
                          "mode": "relative"}
                     g.emit(e)
                     ops.append(dict(e, tag="set_ref"))
+                    # a sub space of x holding user-assigned values in cells derived from x: the refused
+                    # add_bases must leave them alone too
+                    xc = [n for n, c_ in x.cells.items() if len(c_.params) >= 1 and c_.cached
+                          and c_.params[0][1] is None]
+                    if xc and rnd.random() < 0.7:
+                        sn = "SX%d" % len(ops)
+                        e3 = {"op": "new_space", "name": sn, "bases": [x.path()]}
+                        g.emit(e3)
+                        ops.append(dict(e3, tag="new_space"))
+                        cn = rnd.choice(xc)
+                        nargs = sum(1 for _p, d_ in x.cells[cn].params if d_ is None)
+                        e4 = {"op": "assign", "inst": [["s", sn]], "name": cn, "args": [1] * nargs, "value": 555}
+                        g.emit(e4)
+                        ops.append(dict(e4, tag="assign"))
                     ops.append({"op": "invalid", "what": {"bad": "add_bases_relref_scope", "space": x.path(),
                                                           "base": a.path()}})
                     ops.append({"op": "invalid", "what": {"bad": "new_space_relref_scope", "name": "RS%d" % len(ops),
@@ -494,6 +508,17 @@ def expand(case):
                     e2 = {"op": "del_ref", "space": a.path(), "name": "rrl"}
                     g.emit(e2)
                     ops.append(dict(e2, tag="del_ref"))
+                    if rnd.random() < 0.5:
+                        # a relative reference that would take over, in a sub space, a name the sub currently
+                        # derives from another (later) base: T(a, U), U.q = 1, then a.q -> z relative
+                        un, tn, qn = "UQ%d" % len(ops), "TQ%d" % len(ops), "q%d" % len(ops)
+                        for e5 in ({"op": "new_space", "name": un},
+                                   {"op": "set_ref", "space": un, "name": qn, "value": {"lit": 1}, "via": "setattr"},
+                                   {"op": "new_space", "name": tn, "bases": [a.path(), un]}):
+                            g.emit(e5)
+                            ops.append(dict(e5, tag=e5["op"]))
+                        ops.append({"op": "invalid", "what": {"bad": "relref_out_of_scope", "space": a.path(),
+                                                              "name": qn, "target": z.path()}})
         elif r < 0.6:
             o = None
             for _t in range(6):
@@ -634,7 +659,7 @@ def run_directed(case):
             "case": case}
 
 
-DIRECTED = ["A", "F", "G", "U", "I", "J", "K", "L", "R", "EE", "FF"]
+DIRECTED = ["A", "F", "G", "U", "I", "J", "K", "L", "R", "EE", "FF", "RR", "SS"]
 
 
 def _n(v):
